@@ -128,8 +128,11 @@ func runC01(tier string, seed uint64) {
 		for _, noInt := range []bool{false, true} {
 			s := newSess("c01", kind, SessOpts{NoIntegrity: noInt})
 			b := singleBucketName
+			src := b // the bucket copies are made from: another one where the backend has several
 			if !isSingle(kind) {
 				s.MkBucket(b)
+				src = "bkt-src"
+				s.MkBucket(src)
 			}
 			n := 0
 			round := func(k string, body []byte, m []KV, how int) {
@@ -144,16 +147,26 @@ func runC01(tier string, seed uint64) {
 				case 1:
 					s.PostForm(b, k, body, m)
 				case 2:
-					s.Put(b, k+".src", body, m)
+					// every third copy comes from the other bucket, where an object of the destination's name
+					// exists too (it has to stay what it is)
+					sb := b
+					if n%3 == 2 && src != b {
+						sb = src
+						s.Put(sb, k, []byte("the namesake in the source bucket"), nil)
+					}
+					s.Put(sb, k+".src", body, m)
 					if n%2 == 0 {
-						s.Copy(b, k+".src", b, k)
+						s.Copy(sb, k+".src", b, k)
 					} else {
 						// the copy request names metadata of its own: it wins at the destination, the
 						// source keeps what it was uploaded with
-						s.CopyWith(b, k+".src", b, k, []KV{{"Content-Type", "application/x-copied"}, {"X-Amz-Meta-One", "overridden"}, {"X-Amz-Meta-Copy", fmt.Sprint(n)}})
+						s.CopyWith(sb, k+".src", b, k, []KV{{"Content-Type", "application/x-copied"}, {"X-Amz-Meta-One", "overridden"}, {"X-Amz-Meta-Copy", fmt.Sprint(n)}})
 					}
-					s.Get(b, k+".src", "")
-					s.Head(b, k+".src", "")
+					s.Get(sb, k+".src", "")
+					s.Head(sb, k+".src", "")
+					if sb != b {
+						s.Get(sb, k, "")
+					}
 				case 3:
 					s.apiPut(b, k, body, m)
 				case 4:
